@@ -766,6 +766,57 @@ pub fn run_directed_pin_restart(path: &str) -> (String, String, String) {
     (case, "note".to_string(), verdict)
 }
 
+/// Directed, oracle only (C11): a key in the last second of its time-to-live is still alive: it can
+/// be read, renewed (update_ttl) and made permanent (persist), and a renewal made in time keeps it
+/// visible after the old expiry instant.
+pub fn run_directed_last_second_renewal(path: &str) -> (String, String, String) {
+    let mut status = "renewed-within-the-last-second";
+    let mut run = |persistent: bool| -> Result<(), String> {
+        let cfg = Cfg { extreme: false, persistent, cache: false, ttl: true, version: 3, limit: None, blocks: 4096, focus: 0, autocheck: false };
+        let _ = std::fs::remove_file(path);
+        let store = open(&cfg, path).map_err(|e| format!("cannot-create-store {e}"))?;
+        let mut slow = false;
+        for (k, what) in [("last-a", 0), ("last-b", 1), ("last-c", 2)] {
+            let t0 = std::time::Instant::now();
+            store.insert_with_ttl(k.as_bytes(), b"value", 1).map_err(|e| format!("insert {e}"))?;
+            let r = match what {
+                0 => store.update_ttl(k.as_bytes(), 3600).map(|_| ()),
+                1 => store.persist(k.as_bytes()).map(|_| ()),
+                _ => store.get(k.as_bytes()).map(|_| ()),
+            };
+            if t0.elapsed() > std::time::Duration::from_millis(800) {
+                slow = true; // the machine took most of the second: not decidable
+                continue;
+            }
+            if let Err(e) = r {
+                let call = ["update_ttl", "persist", "get"][what];
+                return Err(format!("unexpired-key-hidden ({call} answered {e} on a key with most of its last second left) persistent={persistent}"));
+            }
+        }
+        if slow {
+            status = "too-slow-to-decide";
+            return Ok(());
+        }
+        std::thread::sleep(std::time::Duration::from_millis(1300));
+        for k in ["last-a", "last-b"] {
+            if store.get(k.as_bytes()).is_err() {
+                return Err(format!("key-renewed-in-time-is-gone-after-its-old-expiry key={k} persistent={persistent}"));
+            }
+        }
+        if store.get(b"last-c").is_ok() {
+            return Err(format!("key-visible-after-its-expiry persistent={persistent}"));
+        }
+        Ok(())
+    };
+    let verdict = match std::panic::catch_unwind(std::panic::AssertUnwindSafe(|| run(false).and_then(|_| run(true)))) {
+        Ok(Ok(())) => "ok".to_string(),
+        Ok(Err(e)) => format!("FAIL {e}"),
+        Err(_) => "FAIL an-api-call-panicked".to_string(),
+    };
+    let _ = std::fs::remove_file(path);
+    (format!("note directed=last-second-renewal {status}"), "note".to_string(), verdict)
+}
+
 pub fn configs(extreme: bool) -> Vec<Cfg> {
     let mut v = Vec::new();
     for ttl in [false, true] {
@@ -821,6 +872,7 @@ pub fn run(opts: &Opts) -> i32 {
     }
     let work = std::sync::Arc::new(std::sync::Mutex::new(work));
     let directed = opts.u64("extreme", 0) == 1;
+    let lastsec = opts.u64("lastsec", 0) == 1;
     let mut handles = Vec::new();
     for sh in 0..shards {
         let dir = dir.clone();
@@ -831,6 +883,10 @@ pub fn run(opts: &Opts) -> i32 {
             let mut tiers = [0u64; 3];
             if sh == 0 && directed {
                 let (case, res, verdict) = run_directed_f2();
+                out.emit3(&case, &res, &verdict);
+            }
+            if sh == 2 && lastsec {
+                let (case, res, verdict) = run_directed_last_second_renewal(&format!("{scratch}/seq_last_second.feox"));
                 out.emit3(&case, &res, &verdict);
             }
             if sh == 1 && directed {
